@@ -51,6 +51,12 @@ package build
 //@   opt inline=off
 //@   callsite (PathHasher).Hash by_content [C01]: !arg_timestamp
 //@   callsite (Writer).Write never_in_map_iteration_order [C07]: !inmaprange()
+//@   callsite (PathHasher).Hash collect HP string: arg_path
+//@   invariant "range target.AllTools()" tools: forall a int :: 0 <= a && a < idx ==> \
+//@      (forall b int :: 0 <= b && b < len(target.AllTools()[a].FullPaths(state.Graph)) ==> collected(HP, target.AllTools()[a].FullPaths(state.Graph)[b]))
+//@   invariant "range tool.FullPaths(state.Graph)" paths: forall b int :: 0 <= b && b < idx ==> collected(HP, tool.FullPaths(state.Graph)[b])
+//@   returnsite every_path_of_every_tool_is_hashed [C02]: result1 == nil ==> (forall a int :: 0 <= a && a < len(target.AllTools()) ==> \
+//@      (forall b int :: 0 <= b && b < len(target.AllTools()[a].FullPaths(state.Graph)) ==> collected(HP, target.AllTools()[a].FullPaths(state.Graph)[b])))
 //@ assume func secretHash
 //@   pure
 //
